@@ -120,7 +120,35 @@ def vals_veccount(size=128, depth=1):
     return vs[:8] if depth == 0 else vs
 
 
-VCLASS = {"int": vals_int, "count": vals_count, "bitoff": vals_bitoff, "bitoff_mem": vals_bitoff_mem,
+def _lanes(vals, bits):
+    out = []
+    n = 128 // bits
+    for k in range(len(vals)):
+        v = 0
+        for i in range(n):
+            v |= vals[(k + 3 * i) % len(vals)] << (bits * i)
+        out.append(v)
+    return out
+
+
+F32 = [0x00000000, 0x80000000, 0x3FC00000, 0xBFC00000, 0x7F800000, 0xFF800000, 0x7FC00000, 0xFFC00001, 0x7FA00000,
+       0x00000001, 0x80000001, 0x7F7FFFFF, 0x40100000]
+F64 = [0x0000000000000000, 0x8000000000000000, 0x3FF8000000000000, 0xBFF8000000000000, 0x7FF0000000000000,
+       0xFFF0000000000000, 0x7FF8000000000000, 0xFFF8000000000001, 0x7FF4000000000000, 0x0000000000000001,
+       0x8000000000000001, 0x7FEFFFFFFFFFFFFF, 0x4002000000000000]
+
+
+def vals_fvec32(size=128, depth=1):
+    v = _lanes(F32, 32)
+    return v[:7] if depth == 0 else v
+
+
+def vals_fvec64(size=128, depth=1):
+    v = _lanes(F64, 64)
+    return v[:7] if depth == 0 else v
+
+
+VCLASS = {"fvec32": vals_fvec32, "fvec64": vals_fvec64, "int": vals_int, "count": vals_count, "bitoff": vals_bitoff, "bitoff_mem": vals_bitoff_mem,
           "rep": vals_repcount, "vec": vals_vec, "veccount": vals_veccount}
 
 
@@ -170,6 +198,7 @@ FLAGSETS = {
     "cc": None,   # all 32 combinations of CF PF ZF SF OF (AF follows CF)
     "all6": None,
     "afcf": [0, 0x10, 0x01, 0x11, ALLST, ALLST & ~0x11],
+    "af": [0, 0x10],
 }
 
 
@@ -747,6 +776,19 @@ def build(mode, thorough=False):
               "noflags")
         b.add(mn, "r%d,x" % sz, "%s %s, XMM2" % (mn, rname("B", sz)), [R("B", m, "dst", vals=[mask(m)]), X(2, "src")], 128,
               "noflags")
+    # SSE min/max/compare: pure bit-level semantics in miasm (no float arithmetic), so comparable exactly
+    # (operands: +-0, +-1.5, +-inf, quiet/signalling NaN, denormals, largest finite)
+    fcmp = ["MIN", "MAX"] + ["CMP" + c for c in ("EQ", "LT", "LE", "UNORD", "NEQ", "NLT", "NLE", "ORD")]
+    for base in fcmp:
+        for sfx, vc in (("SS", "fvec32"), ("PS", "fvec32"), ("SD", "fvec64"), ("PD", "fvec64")):
+            mn = base + sfx
+            b.add(mn, "x,x", "%s XMM1, XMM2" % mn, [X(1, "dst", vclass=vc), X(2, "src", vclass=vc)], 128, "noflags",
+                  cap=None if thorough else 80)
+            esz = 128 if sfx[0] == "P" else (32 if sfx == "SS" else 64)
+            mt, off, ptrs = b.mem(esz, "SI", 0x20)
+            b.add(mn, "x,m%d" % esz, "%s XMM1, %s" % (mn, mt),
+                  [X(1, "dst", vclass=vc), M(off, esz, "src", vals=(F32 if vc == "fvec32" else F64) if esz < 128 else None,
+                                            vclass=vc)], 128, "noflags", ptrs=ptrs, depth=0)
     for mn in ("PSHUFD", "PSHUFLW", "PSHUFHW", "SHUFPS", "SHUFPD", "PALIGNR"):
         for iv in (0x00, 0x1B, 0xE4, 0xFF, 0x4E, 0x93, 0x01, 0x10, 0x08, 0x0F, 0x11, 0x20):
             b.add(mn, "x,x,imm8", "%s XMM1, XMM2, 0x%X" % (mn, iv), [X(1, "dst", vals=vals_vec()[2:6]), X(2, "src", vals=vals_vec()[2:8])],
@@ -789,10 +831,11 @@ def build(mode, thorough=False):
         ahq = [0, 0xff, 0x7f, 0x09, 0x80, 0xfe, 0x55, 0x01]
         ah = list(range(256)) if thorough else ahq[:4]
         al = list(range(256))
-        b.add("AAA", "-", "AAA", [R("A", 8, "al", vals=al), R("A", 8, "ah", hi=True, vals=ah)], 8, "model", flagsets="afcf",
-              model="aaa", cap=10 ** 9)
-        b.add("AAS", "-", "AAS", [R("A", 8, "al", vals=al), R("A", 8, "ah", hi=True, vals=ah)], 8, "model", flagsets="afcf",
-              model="aas", cap=10 ** 9)
+        # thorough: every AX x AF (CF is not an input of AAA/AAS); quick: every AL x 4 AH x AF/CF combinations
+        b.add("AAA", "-", "AAA", [R("A", 8, "al", vals=al), R("A", 8, "ah", hi=True, vals=ah)], 8, "model",
+              flagsets="af" if thorough else "afcf", model="aaa", cap=10 ** 9)
+        b.add("AAS", "-", "AAS", [R("A", 8, "al", vals=al), R("A", 8, "ah", hi=True, vals=ah)], 8, "model",
+              flagsets="af" if thorough else "afcf", model="aas", cap=10 ** 9)
         b.add("DAA", "-", "DAA", [R("A", 8, "al", vals=al), R("A", 8, "ah", hi=True, vals=[0x5a])], 8, "model",
               flagsets="afcf", model="daa", cap=10 ** 9)
         b.add("DAS", "-", "DAS", [R("A", 8, "al", vals=al), R("A", 8, "ah", hi=True, vals=[0x5a])], 8, "model",
